@@ -776,7 +776,8 @@ def render_layout(d, layout, setvars, depth=1):
             if kind == "setvar":
                 name = "%sSet%d" % (d["prefix"], len(setvars))
                 setvars.append("var %s = %s\n" % (name, e.replace("\n" + "\t" * depth, "\n" + "\t" * (depth - 1)) if False else e))
-                parts.append(name)
+                # every fourth reference to a Set variable is parenthesised: the same declaration, another spelling
+                parts.append("(%s)" % name if sum(map(ord, name)) % 4 == 0 else name)
             else:
                 parts.append(e)
     return parts
